@@ -260,7 +260,15 @@ func (c *Chain) queueDeposits(st *refspec.State, plans []DepPlan, pr *prng) {
 				continue
 			}
 			amt = []uint64{1_000_000_000, 2_500_000_000, 500_000_000, 16_000_000_000}[dp.Amount%4]
-			d = c.depositData(k, dp.Eth1, amt, dp.Amount%2 == 0) // top-up signatures are not checked: half are junk
+			d = c.depositData(k, dp.Eth1, amt, dp.Amount%2 == 0) // top-up signatures are not checked: half are by another key
+			switch dp.Target % 3 {
+			case 1: // ... and a third are not even decodable points
+				d.Signature = [96]byte{}
+			case 2:
+				for i := range d.Signature {
+					d.Signature[i] = 0xff
+				}
+			}
 		case 2: // bad proof of possession on a new key
 			d = c.depositData(c.NextKey, dp.Eth1, amt, false)
 			c.NextKey++ // the key stays unused in the registry
